@@ -272,6 +272,13 @@ def _cmp_builder(ctx, n: int, K: int, recs: List[List[int]], choices: List[List[
         if f.get("adm") != "1":
             ctx.disagreement(f"k-opt: the real builder emitted a node sequence the model's masks reject ({what})",
                              {"n": n, "K": K, "rec": r, "nodes": c, "masks": f.get("masks")})
+        if f.get("wf") != "1":
+            # the hypothesis of the partial theorem `KoptK.koptMove_isTour` (decidable, evaluated by Lean on the
+            # REAL action): if it fails, the proved part of C09 does not cover this emitted move
+            ctx.disagreement(f"k-opt: an emitted action is not a well-formed segment-reversal move ({what})",
+                             {"n": n, "K": K, "rec": r, "action": ra})
+        else:
+            ctx.count(f"koptk.{what}.wellformed-moves")
         if ilist(f.get("rec", "")) != rn:
             ctx.disagreement(f"k-opt _local_operator differs ({what})",
                              {"n": n, "K": K, "rec": r, "action": ra, "real": rn, "model": f.get("rec")})
@@ -295,7 +302,7 @@ def _koptk_random_action(ctx, n: int, K: int, B: int):
 def run_kopt(ctx):
     thorough = ctx.tier == "thorough" or ctx.searching
     # (1) 2-opt: every tour × every (a, b) on tiny n
-    for n in ([3, 4, 5, 6] if not thorough else [2, 3, 4, 5, 6, 7]):
+    for n in ([3, 4, 5, 6] if not thorough else [2, 3, 4, 5, 6, 7, 8]):
         recs, acts = [], []
         for rec in all_tours(n):
             for a in range(n):
@@ -305,9 +312,9 @@ def run_kopt(ctx):
         _cmp_op2(ctx, n, recs, acts, "exhaustive")
         _kopt2_mask(ctx, n)
     # sampled tours, all pairs, n = 7, 8
-    for n in [7, 8]:
+    for n in [7, 8, 9]:
         recs, acts = [], []
-        for _ in range(ctx.budget(12, 60)):
+        for _ in range(ctx.budget(12, 200)):
             rec = rand_tour(ctx.rng, n)
             for a in range(n):
                 for b in range(n):
@@ -315,7 +322,7 @@ def run_kopt(ctx):
                     acts.append([a, b])
         _cmp_op2(ctx, n, recs, acts, "all-pairs")
     # random n ≤ 50: all relative positions get hit (adjacent, wrap-around, whole tour)
-    for _ in range(ctx.budget(12, 120)):
+    for _ in range(ctx.budget(12, 400)):
         n = ctx.rng.choice([9, 10, 13, 20, 31, 50])
         recs, acts = [], []
         for _ in range(40):
@@ -344,7 +351,7 @@ def run_kopt(ctx):
         # nodes the model masks must not be selectable in the real builder either: drive the real
         # builder towards a masked node and check that it does not come out
         _masked_nodes_rejected(ctx, n, K, tours[0])
-    for _ in range(ctx.budget(10, 80)):
+    for _ in range(ctx.budget(10, 300)):
         n = ctx.rng.choice([4, 5, 6, 8, 10, 20, 50])
         K = ctx.rng.choice([3, 4, 5, 6])
         _koptk_random_action(ctx, n, K, 24)
@@ -473,7 +480,7 @@ def run_pdprr(ctx):
                         acts.append([p, f, s])
         _cmp_pdp_op(ctx, gs, recs, acts, "exhaustive")
         _pdp_masks(ctx, gs, [seq_to_rec(o) for o in (orders if len(orders) <= 30 else ctx.rng.sample(orders, 30))])
-    for _ in range(ctx.budget(10, 100)):
+    for _ in range(ctx.budget(10, 400)):
         gs = ctx.rng.choice([9, 11, 21, 51])
         recs, acts = [], []
         for _ in range(40):
@@ -548,17 +555,21 @@ def judge_trace(ctx, kind: int, n: int, pts: List[Tuple[int, int]], tr: Trace, r
         return
     model = {k: f[k].split(";") for k in ("cur", "best", "ccur", "cbsf", "rew", "vt")}
     T = len(moves)
-    for t in range(T + 1):
-        for key, real in (("cur", tr.cur[r][t]), ("best", tr.best[r][t]), ("vt", tr.vt[r][t])):
-            if ilist(model[key][t]) != real:
-                ctx.disagreement(f"_step: {key} differs at step {t} ({what})",
-                                 dict(wit, step=t, real=real, model=model[key][t]))
-                return
-        for key, real in (("ccur", tr.ccur[r][t]), ("cbsf", tr.cbsf[r][t]), ("rew", tr.rew[r][t])):
-            if real is not None and int(model[key][t]) != real:
-                ctx.disagreement(f"_step: {key} differs at step {t} ({what})",
-                                 dict(wit, step=t, real=real, model=model[key][t]))
-                return
+
+    def compare():
+        for t in range(T + 1):
+            for key, real in (("cur", tr.cur[r][t]), ("best", tr.best[r][t]), ("vt", tr.vt[r][t])):
+                if ilist(model[key][t]) != real:
+                    ctx.disagreement(f"_step: {key} differs at step {t} ({what})",
+                                     dict(wit, step=t, real=real, model=model[key][t]))
+                    return
+            for key, real in (("ccur", tr.ccur[r][t]), ("cbsf", tr.cbsf[r][t]), ("rew", tr.rew[r][t])):
+                if real is not None and int(model[key][t]) != real:
+                    ctx.disagreement(f"_step: {key} differs at step {t} ({what})",
+                                     dict(wit, step=t, real=real, model=model[key][t]))
+                    return
+
+    compare()
     # (b) property on the real observables
     sp_cur = [parse_fields(x) for x in ctx.driver.ask_many(spec_lines(kind, n, tr.cur[r], D))]
     sp_best = [parse_fields(x) for x in ctx.driver.ask_many(spec_lines(kind, n, tr.best[r], D))]
@@ -629,7 +640,7 @@ def real_moves(ctx, env, kind: int, n: int, td, how: str) -> List[List[int]]:
 
 
 def run_bsf(ctx):
-    total = ctx.budget(48, 600)
+    total = ctx.budget(48, 2400)
     T = 50
     rows = 0
     while rows < total:
@@ -690,7 +701,7 @@ def make_policy(name: str, ctx):
 
 
 def run_policies(ctx):
-    total = ctx.budget(9, 90)
+    total = ctx.budget(9, 240)
     T = 30
     for it in range(total):
         name = ["dact", "n2s", "neuopt"][it % 3]
@@ -738,6 +749,9 @@ def run_policies(ctx):
                     if not same:
                         ctx.disagreement("NeuOpt policy: emitted action differs from the model's builder on the same node sequence",
                                          {"n": n, "K": kind, "rec": cur[r], "real": mv[r], "model": f.get("action")})
+                    if same and f.get("wf") != "1":
+                        ctx.disagreement("NeuOpt policy: emitted action is not a well-formed segment-reversal move",
+                                         {"n": n, "K": kind, "rec": cur[r], "action": mv[r]})
                     oks.append(same and f.get("adm") == "1")
             for r in range(B):
                 adm[r].append(oks[r])
@@ -784,7 +798,7 @@ def corruptions(rng, rec: List[int], kind: int):
 
 def run_checker(ctx, kind: int):
     name = "pdprr" if kind == 0 else "kopt"
-    total = ctx.budget(60, 600)
+    total = ctx.budget(60, 3000)
     for it in range(total):
         n = ctx.rng.choice([3, 5, 7, 9, 21] if kind == 0 else [3, 4, 5, 6, 8, 20])
         env = pdp_env(n) if kind == 0 else kopt_env(n, 2)
@@ -815,6 +829,60 @@ def run_checker(ctx, kind: int):
 
 
 # ------------------------------------------------------------------------------------------------
+# replays of recorded witnesses (./check Cxx --replay PATH)
+# ------------------------------------------------------------------------------------------------
+
+
+def replay_move(ctx, w):
+    """witness of a move that breaks a tour: {n|gs, rec, action[, K]}"""
+    if "gs" in w:
+        _cmp_pdp_op(ctx, w["gs"], [w["rec"]], [w["action"]], "replay")
+    elif "K" in w:
+        K, n = w["K"], w["n"]
+        env = kopt_env(n, K)
+        out = env._local_operator(torch.tensor([w["rec"]]), torch.tensor([w["action"]])).tolist()[0]
+        g = parse_fields(ctx.driver.ask(spec_lines(K, n, [out])[0]))
+        if g.get("tour") != "1":
+            ctx.violation("koptk:move-breaks-tour", "replayed k-opt move yields a non-tour", dict(w, result=out))
+    else:
+        _cmp_op2(ctx, w["n"], [w["rec"]], [w["action"]], "replay")
+
+
+def replay_trace(ctx, w):
+    """witness of a bookkeeping / validity failure along a move sequence: {kind, n, pts, rec0, moves}"""
+    if "moves" not in w:
+        return replay_move(ctx, w)
+    kind, n = w["kind"], w["n"]
+    env = pdp_env(n) if kind == 0 else kopt_env(n, kind)
+    B = 1 if kind == 2 else 2  # PDP / k-opt `_step` and sampler need B ≥ 2 (see run_bsf)
+    pts = [[tuple(p) for p in w["pts"]]] * B
+    td = reset_with(env, kind, pts, [w["rec0"]] * B)
+    tr = Trace(B)
+    tr.snap(td, True)
+    for mv in w["moves"]:
+        td.set("action", torch.tensor([mv] * B, dtype=torch.long))
+        td = env.step(td)["next"]
+        for r in range(B):
+            tr.moves[r].append(mv)
+        tr.snap(td, False)
+    judge_trace(ctx, kind, n, pts[0], tr, 0, w.get("what", "replay"))
+
+
+def replay_checker(ctx, w):
+    n, rec = w["n"], w["rec_best"]
+    for kind in ((0,) if ctx.unit == "pdprr" else (2,)):
+        env = pdp_env(n) if kind == 0 else kopt_env(n, 2)
+        td = TensorDict({"rec_best": torch.tensor([rec], dtype=torch.long)}, batch_size=[1])
+        real = rl.checker_accepts(env, td, None)
+        f = parse_fields(ctx.driver.ask(spec_lines(kind, n, [rec])[0]))
+        if (f["valid"] == "1") != bool(real):
+            name = "pdprr" if kind == 0 else "kopt"
+            key = f"{name}-checker:" + ("rejects-valid" if f["valid"] == "1" else
+                                        ("accepts-subtours" if f["tour"] != "1" and sorted(rec) == list(range(n)) else "accepts-invalid"))
+            ctx.violation(key, "replayed checker verdict disagrees with the definition", w)
+
+
+# ------------------------------------------------------------------------------------------------
 # registration
 # ------------------------------------------------------------------------------------------------
 
@@ -834,11 +902,14 @@ _bsf_thms = []
 if _has("Rl4co/Props/C09/ImproveBsf.lean"):
     _bsf_thms = [
         Theorem("Rl4co.Improve.Bsf.invariants", "proved",
-                "for ANY move operator, cost function and move sequence: cost_current = cost(rec_current), cost_bsf = "
-                "cost(rec_best) = min of all costs seen, every reward = previous bsf − bsf ≥ 0, Σ rewards = cost₀ − bsf"),
+                "for ANY move operator, distance matrix, initial array and move sequence: cost_current = cost(rec_current), "
+                "cost_bsf = cost(rec_best) = min of the costs of all tours seen, Σ rewards = cost₀ − cost_bsf"),
+        Theorem("Rl4co.Improve.Bsf.reward_eq_decrease", "proved", "every reward = previous bsf − new bsf, and ≥ 0 (any state, any move)"),
         Theorem("Rl4co.Improve.Bsf.bsf_antitone", "proved", "cost_bsf never increases along any move sequence"),
+        Theorem("Rl4co.Improve.Bsf.valid_of_run", "proved",
+                "if admitted moves preserve a validity predicate, rec_current AND rec_best stay valid along any admitted run"),
     ]
-register(Unit("C09", "bsf", run_bsf, drivers=["drv_improve"],
+register(Unit("C09", "bsf", run_bsf, drivers=["drv_improve"], replay=replay_trace, weight=1.0,
               lean_modules=["Rl4co.Props.C09.ImproveBsf"] if _bsf_thms else [],
               theorems=_bsf_thms,
               assumptions=[MODEL_NOTE] + ([] if _bsf_thms else [_NO_THM])))
@@ -847,45 +918,86 @@ _pdp_thms = []
 if _has("Rl4co/Props/C09/ImprovePdp.lean"):
     _pdp_thms = [
         Theorem("Rl4co.Improve.PdpRR.preserves", "proved",
-                "every mask-admitted ruin-repair move maps a valid PDP tour (single cycle, pickups before deliveries) to a valid PDP tour"),
+                "every mask-admitted ruin-repair move maps a valid PDP tour (single cycle, pickups before deliveries) to a valid "
+                "PDP tour, any odd number of nodes"),
+        Theorem("Rl4co.Improve.PdpRR.run_valid", "proved",
+                "after any sequence of mask-admitted moves rec_current and rec_best are valid PDP tours"),
+        Theorem("Rl4co.Improve.PdpRR.randomAction_admitted", "proved",
+                "every (pair, first, second) `_random_action` can emit is in range and admitted by get_mask"),
     ]
-register(Unit("C09", "pdprr", run_pdprr, drivers=["drv_improve"],
+register(Unit("C09", "pdprr", run_pdprr, drivers=["drv_improve"], replay=replay_trace,
               lean_modules=["Rl4co.Props.C09.ImprovePdp"] if _pdp_thms else [],
               theorems=_pdp_thms,
-              assumptions=[MODEL_NOTE] + ([] if _pdp_thms else [_NO_THM])))
+              assumptions=[MODEL_NOTE,
+                           "`_random_action` is modelled as the relation 'any (pair, first, second) with pair < gs/2 whose mask "
+                           "entry is true' (softmax of logits set to -1e20 has probability exactly 0 on masked entries in float32); "
+                           "its outputs are checked against the model mask at run time"]
+              + ([] if _pdp_thms else [_NO_THM])))
 
 _kopt_thms = []
 if _has("Rl4co/Props/C09/ImproveKopt.lean"):
     _kopt_thms = [
         Theorem("Rl4co.Improve.Kopt.twoOpt_preserves", "proved",
-                "2-opt `_local_operator` maps a single n-cycle to a single n-cycle for every (first, second)"),
+                "2-opt `_local_operator` maps a single n-cycle to a single n-cycle for every n and every first ≠ second"),
+        Theorem("Rl4co.Improve.Kopt.twoOpt_run_valid", "proved",
+                "after any sequence of get_mask-admitted 2-opt moves rec_current and rec_best are single n-cycles"),
+        Theorem("Rl4co.Improve.Kopt.randomAction2_admitted", "proved",
+                "every (a, b) the 2-opt `_random_action` can emit (flat index with true mask entry, decoded by // and %) is in range and admitted"),
+        Theorem("Rl4co.Improve.KoptK.koptMove_isTour", "proved",
+                "general k-opt `_local_operator` (NeuOpt), any n and k: a tour stays a tour for every well-formed move "
+                "(KoptMoveWF: the action reverses consecutive segments in place)"),
+        Theorem("Rl4co.Improve.Kopt.koptAction_wellformed", "proved",
+                "the k-opt action builder (`_random_action` k_max>2 = NeuOptPolicy's internal masks) only emits well-formed moves: "
+                "any tour, any k_max, any initial mask, any node sequence admitted by the builder's own masks"),
+        Theorem("Rl4co.Improve.Kopt.kopt_preserves", "proved",
+                "hence every k-opt move the builder can emit maps a single n-cycle to a single n-cycle"),
+        Theorem("Rl4co.Improve.Kopt.kopt_run_valid", "proved",
+                "after any sequence of builder-admitted k-opt moves rec_current and rec_best are single n-cycles"),
     ]
-register(Unit("C09", "kopt", run_kopt, drivers=["drv_improve"],
+register(Unit("C09", "kopt", run_kopt, drivers=["drv_improve"], replay=replay_trace,
               lean_modules=["Rl4co.Props.C09.ImproveKopt"] if _kopt_thms else [],
               theorems=_kopt_thms,
               assumptions=[MODEL_NOTE,
-                           "general k-opt relinking (NeuOpt) and the k-opt action builder are NOT covered by a theorem: "
-                           "model↔code correspondence plus exhaustive enumeration of all admitted node sequences on tiny "
-                           "tours (tests, not proofs)"] + ([] if _kopt_thms else [_NO_THM])))
+                           "k-opt (k_max > 2): TSPkoptEnv has no mask of its own; 'admitted' means admitted by the masks the action "
+                           "builder computes while sampling (model `genRun`, identical loop in `_random_action` and NeuOptPolicy). "
+                           "Sampling is modelled as 'any node whose mask entry is false' (softmax of logits set to -1e30 gives "
+                           "probability exactly 0 in float32); the `fix bug of pytorch` argmax override only replaces the sample by "
+                           "another unmasked node",
+                           "besides the theorems the harness still enumerates EVERY admitted node sequence on tiny tours and evaluates "
+                           "the decidable KoptMoveWF on every action the real code emits (ties model↔code, not needed for the proof)"]
+              + ([] if _kopt_thms else [_NO_THM])))
 
-register(Unit("C09", "policies", run_policies, drivers=["drv_improve"], lean_modules=[], theorems=[],
+register(Unit("C09", "policies", run_policies, drivers=["drv_improve"], lean_modules=[], theorems=[], replay=replay_trace,
               assumptions=[MODEL_NOTE,
                            "policies are neural networks (uninterpreted): their emitted moves are checked against the masks "
                            "at run time on sampled trajectories only; validity of the resulting tours then follows from the "
-                           "move theorems of units kopt/pdprr where proved"]))
+                           "move theorems of units kopt/pdprr (2-opt: Kopt.twoOpt_preserves, N2S: PdpRR.preserves, NeuOpt: its "
+                           "mask loop is the modelled builder, Kopt.kopt_preserves)"]))
 
 for _kind, _name in ((2, "kopt"), (0, "pdprr")):
     _thms = []
     if _has("Rl4co/Props/C06/Improve.lean"):
         if _kind == 2:
-            _thms = [Theorem("Rl4co.Improve.Check.kopt_complete", "proved", "a single n-cycle passes the k-opt checker"),
+            _thms = [Theorem("Rl4co.Improve.Check.kopt_complete", "proved", "every single n-cycle passes the k-opt TSP checker"),
                      Theorem("Rl4co.Improve.Check.kopt_sound_counterexample", "proved",
-                             "the checker accepts a successor array made of two sub-tours (soundness fails)"),
+                             "soundness fails: rec_best = [1,0,3,2] (two sub-tours) is accepted"),
                      Theorem("Rl4co.Improve.Check.kopt_sound_partial", "partial",
-                             "accepted ⇒ the successor array is a permutation of 0..n-1 (not necessarily one cycle)")]
+                             "accepted ⇒ the successor array is a permutation of 0..n-1 (not necessarily ONE cycle)")]
         else:
-            _thms = [Theorem("Rl4co.Improve.Check.pdp_sound_counterexample", "proved",
-                             "the PDP ruin-repair checker accepts two sub-tours with the pickups off the depot's cycle")]
+            _thms = [Theorem("Rl4co.Improve.Check.pdp_complete", "proved", "every valid PDP tour on 2h+1 nodes passes the checker"),
+                     Theorem("Rl4co.Improve.Check.pdp_sound_counterexample", "proved",
+                             "soundness fails: rec_best = [3,2,1,4,0] (depot cycle through both deliveries, pickups on a separate "
+                             "sub-tour) is accepted"),
+                     Theorem("Rl4co.Improve.Check.pdp_sound_partial", "partial",
+                             "accepted ∧ single cycle ⇒ every pickup precedes its delivery")]
+        _thms.append(Theorem("Rl4co.Improve.isTourB_iff", "proved",
+                             "the executable run-time oracle isTourB decides the declarative IsTour (single n-cycle)"))
+        if _kind == 0:
+            _thms.append(Theorem("Rl4co.Improve.pdpValidB_iff", "proved",
+                                 "the executable run-time oracle pdpValidB decides the declarative PdpValid (gs odd)"))
     register(Unit("C06", _name, (lambda k: (lambda ctx: run_checker(ctx, k)))(_kind), drivers=["drv_improve"],
+                  replay=replay_checker,
                   lean_modules=["Rl4co.Props.C06.Improve"] if _thms else [], theorems=_thms,
-                  assumptions=[MODEL_NOTE] + ([] if _thms else [_NO_THM])))
+                  assumptions=[MODEL_NOTE,
+                               "the checker looks only at td['rec_best'] (the `actions` argument is ignored by the code)"]
+                  + ([] if _thms else [_NO_THM])))
